@@ -422,7 +422,7 @@ func runC15(r *run) {
 			r.violate(violation{What: "a handler derived with " + d.name + " does not keep the destination of the handler it was derived from",
 				Input:    map[string]any{"derivation": d.name, "base": "JSON handler on a logger with its own writer", "call": `Info("through a derived handler", "k", "v")`},
 				Expected: "one record on the base logger's writer", Actual: fmt.Sprintf("%d records there (the record went to the package default destination)", len(w)),
-				Finding:  "C15-derived-detached"})
+				Finding: "C15-derived-detached"})
 		}
 	}
 	os.Stdout, os.Stderr = realOut, realErr
